@@ -1,0 +1,13 @@
+//go:build verif
+
+package authentication
+
+// Pure specification functions used by the contracts in zz_contracts_verif.go (written from the property statement).
+
+// specDeclaredPayloadMode: the x-amz-content-sha256 value declares a payload mode (unsigned payload or one of the
+// streaming modes) instead of carrying the SHA-256 of the body.
+func specDeclaredPayloadMode(v string) bool {
+	return v == "UNSIGNED-PAYLOAD" || v == "STREAMING-UNSIGNED-PAYLOAD" || v == "STREAMING-UNSIGNED-PAYLOAD-TRAILER" ||
+		v == "STREAMING-AWS4-HMAC-SHA256-PAYLOAD" || v == "STREAMING-AWS4-HMAC-SHA256-PAYLOAD-TRAILER" ||
+		v == "STREAMING-AWS4-ECDSA-P256-SHA256-PAYLOAD" || v == "STREAMING-AWS4-ECDSA-P256-SHA256-PAYLOAD-TRAILER"
+}
